@@ -91,6 +91,21 @@ CLAIMED.update({
         ref='6 C16'),
 })
 
+CLAIMED.update({
+    'C17': dict(
+        text='The real cli_main() runs in-process over a virtual file system that already holds old output, label and hex files, for combinations of programs (a symbolic operand decides which pass refuses them), -c (symbolic) and the option sets -o/-l/--hex-offset valid and invalid/-i/--include-definitions/-v: on every failing path nothing was opened for writing; on success the -o file holds exactly the assembled byte object, the -l file one "name 0x%08x" line per label carrying that label\'s value, and bin2hex is called with (output, output.hex, offset) after the binary was written.',
+        note='Trusted: z3, stubs (virtual os/open, recorder for intelhex.bin2hex, SystemExit observed in-process). The Intel HEX encoding is third-party and not part of the claim.',
+        ref='6 C17'),
+    'C18': dict(
+        text='The real dfu.cli_main() against a DfuSe device model: for each firmware length of the bound, opaque content, symbolic poll timeouts, symbolic busy schedules, symbolic initial error state and flash-size variant, every completed run leaves the modelled flash equal to the zero-padded image, erases before writing, never sends a request while the device is busy, sleeps every requested poll delay (solver query per status response) and stays inside the flash.',
+        note='Trusted: the device model (DESIGN.md 4.5), z3, stubs. Bound: firmware lengths are concrete per task (the padding loop concretises them); see evidence.bounds.',
+        ref='6 C18'),
+    'C19': dict(
+        text='Oversize: a symbolic length above capacity (one path per variant covers all oversize lengths) reaches no device request. Error injection: a symbolic error status at a symbolically chosen erase/set-address/write operation: the run must end with a SystemExit message and must not print done!.',
+        note='Trusted: device model, z3, stubs. Bound: images of 1..3 pages for injection.',
+        ref='6 C19'),
+})
+
 NOT_YET = {}
 
 
